@@ -21,12 +21,12 @@ def within (last : Option Nat) (d now : Nat) : Bool :=
 def beyond (last : Option Nat) (d now : Nat) : Bool :=
   match last with | none => false | some t => decide (t + d < now)
 
-/-! ### a VAM at the first report after activation (while not passive/idle) -/
+/-! ### a VAM at the first report after activation (while not passive/idle, unless the transmission attempt fails) -/
 structure FirstSt where
   sent : Bool := false
 
 def firstMon (m : FirstSt) : Ev → Option FirstSt
-  | (op, none) => if (!m.sent && op.gate) = true then none else some m
+  | (op, none) => if (!m.sent && op.gate && !op.fail) = true then none else some m
   | (_, some _) => some { sent := true }
 
 /-! ### a VAM is built from the report that triggered it; nothing while passive/idle -/
@@ -68,7 +68,7 @@ def minGapMon (strict : Bool) (m : MinGapSt) : Ev → Option MinGapSt
       then some { last := op.r.its, hi := hi', mono := mono' } else none
 
 /-! ### at most T_GenVamMax + R apart while reports (≤ R apart, with timestamps) keep arriving and the
-station is neither passive nor idle -/
+station is neither passive nor idle (a failing transmission attempt interrupts the obligation like a passive phase) -/
 structure MaxGapSt where
   last : Option Nat := none
   prev : Option Nat := none
@@ -85,7 +85,7 @@ def maxGapMon (R : Nat) (m : MaxGapSt) : Ev → Option MaxGapSt
        | none => some { m with ok := false }
        | some _ => some { last := none, prev := none, ok := true })
     | some ts =>
-      let ok' := m.ok && op.gate && spaced m.prev ts R
+      let ok' := m.ok && op.gate && !op.fail && spaced m.prev ts R
       match out with
       | some _ =>
         if ok' = true → within m.last (T_GenVamMax + R) ts = true
@@ -94,7 +94,9 @@ def maxGapMon (R : Nat) (m : MaxGapSt) : Ev → Option MaxGapSt
         if ok' = true ∧ beyond m.last T_GenVamMax ts = true then none
         else some { m with prev := some ts, ok := ok' }
 
-/-! ### low-frequency container: first VAM and every VAM ≥ 2 s (wall clock) after the last one carrying it -/
+/-! ### low-frequency container: in the first VAM and in every VAM ≥ 2 s (wall clock) after the last VAM that carried
+it (the direction the property states); in no other VAM, except together with a cluster-operation container
+(TS 103 300-3 clause 6.2, which the code follows: `has_cluster_op`) -/
 structure LfSt where
   lastLf : Option Nat := none
 
@@ -102,6 +104,7 @@ def lfMon (m : LfSt) : Ev → Option LfSt
   | (_, none) => some m
   | (op, some c) =>
     let want := noneOrSince m.lastLf T_LF op.wall
-    if c.lf = want then some { lastLf := if c.lf then some op.wall else m.lastLf } else none
+    if (want = true → c.lf = true) ∧ (c.lf = true → want = true ∨ op.clusterOp = true)
+    then some { lastLf := if c.lf then some op.wall else m.lastLf } else none
 
 end FlexModel.Fac.VamSpec
